@@ -118,7 +118,13 @@ def stepArgs (w : World) (op : String) (a : Args) : World × String :=
       match v? with
       | none => (w, "bad-op:val")
       | some v =>
-        match apiUpdateRanges m (a.getD "op" "replace") R v (a.getD "path" "slice" == "slice") with
+        -- `path=slice|expand` (threshold rebound to -1 / 10^15) or `thr=n`: the switch itself,
+        -- `np.sum(end - start) > PIXEL_RANGE_THRESHOLD`
+        let total : Nat := R.foldl (fun acc ab => acc + (ab.2 - ab.1)) 0
+        let slicePath := match a.nat? "thr" with
+          | some t => decide (total > t)
+          | none => a.getD "path" "slice" == "slice"
+        match apiUpdateRanges m (a.getD "op" "replace") R v slicePath with
         | .ok m' => (w.put n m', "ok")
         | .error e => (w.put n { m with cache := none }, errLine e)
   | "sop" => withMap w a fun m =>
@@ -357,6 +363,18 @@ def stepArgs (w : World) (op : String) (a : Args) : World × String :=
     | none, _, _ => (w, "bad-op:no-such-map")
     | _, _, _ => (w, "bad-op:fitsraw")
   | "dor" =>
+    match (w.hpfiles.find? (·.1 == a.getD "f" "f")).map (·.2), a.nat? "ord", a.nat? "covord" with
+    | some hf, some ord, some co =>
+      -- HEALPix-format input: convert, then degrade in memory (weight files are not allowed)
+      if (a.get? "wf").isSome then (w, errLine .notImpl) else
+      let r2n := (a.get? "r2n").bind parseNats |>.map List.toArray
+      (match apiReadHealpix hf co r2n with
+       | .error e => (w, errLine e)
+       | .ok m =>
+         match apiDegrade m ord (a.getD "red" "mean") none with
+         | .ok d => (w.put (a.getD "r" "tmp") { d with cache := none }, "ok")
+         | .error e => (w, errLine e))
+    | _, _, _ =>
     match (w.files.find? (·.1 == a.getD "f" "f")).map (·.2), a.nat? "ord" with
     | some fo, some ord =>
       let px? : Option (Option (List Nat)) := match a.get? "pixels" with
